@@ -157,8 +157,10 @@ abbrev Reachable (cfg : Cfg) (m0 : Mem) := Reach (sys cfg) (initState cfg m0)
 
 /-! ### the other operations -/
 
-/-- `memory.size`: c.c emits `si = m->pages;` -/
-def sizeSteps : List MStep := [.read 1 .pages, .ret (.reg 1)]
+/-- `memory.size` as c.c emitted it before /repo commit ee826ee: `si = m->pages;`, one PLAIN read.  Since then
+    memory.size calls `wasmMemorySize`, regenerated as `Gen.sizeSteps` (lock; read; unlock).  Kept to show why
+    the lock is needed (`unlocked_size_read_would_race`). -/
+def plainSizeSteps : List MStep := [.read 1 .pages, .ret (.reg 1)]
 /-- a load or store: the descriptor access is one read of `data` (the header performs no bounds check) -/
 def accessSteps : List MStep := [.read 1 .data, .ret (.lit 0)]
 
